@@ -52,6 +52,7 @@ func (c *Ctx) constTerm(pkg, name string) *Term {
 }
 
 func runC16(c *Ctx) {
+	defer checkConfigGetters(c, "C16.R7", "GetDeviceAndUserCodeLifespan")
 	defer c16Store(c)
 	const role = "device-validate"
 	fns := c.deviceValidateFns()
